@@ -167,6 +167,7 @@ EDITS = {
     'drop-submodule': lambda s: _drop_submodule(s),
     'fill-empty-dir': lambda s: _write(s + '/d2/empty/w.dat', ''),
     'drop-finds-add-submodule': lambda s: _drop_finds_add_submodule(s),
+    'create-later-dir': lambda s: _write(s + '/later/deep/new.txt', ''),
     'edit-toolchain': lambda s: _os.path.exists(s + '/tc.bfg') and _write(s + '/tc.bfg', "environ['SAID'] = 'two'\n"),
     'edit-new-submodule': lambda s: _os.path.exists(s + '/sub2/build.bfg') and _append(s + '/sub2/build.bfg', "copy_file('v.txt')\n"),
 }
@@ -208,6 +209,8 @@ class RegenHistory(Bounded):
         # one regeneration output only (no generated .pc file) but several inputs; and a toolchain file that is edited
         yield {'edits': ['add-match-d1', 'edit-sub'], 'single_output': True}
         yield {'edits': ['add-dir'], 'single_output': True}
+        yield {'edits': ['create-later-dir'], 'later_dir': True}
+        yield {'edits': ['add-match-d1', 'create-later-dir', 'edit-sub'], 'later_dir': True}
         yield {'edits': ['edit-toolchain'], 'toolchain': True}
         yield {'edits': ['edit-toolchain', 'add-match-d1'], 'toolchain': True}
         yield {'edits': ['add-match-d1', 'edit-toolchain'], 'toolchain': True, 'single_output': True}
@@ -228,7 +231,9 @@ class RegenHistory(Bounded):
             _write(src + '/build.bfg', "project('p')\na = find_files('d1/*.txt', extra='*.md')\nb = find_files('d2/**/*.dat')\n"
                                       "submodule('sub')\nfor f in a + b:\n    copy_file(f)\ncommand('say', cmd=['echo', argv.subname])\n"
                                       + ("" if raw.get('single_output') else "pkg_config('p', version='1.0')\n")
-                                      + ("command('said', cmd=['echo', env.getvar('SAID', 'nothing')])\n" if raw.get('toolchain') else ""))
+                                      + ("command('said', cmd=['echo', env.getvar('SAID', 'nothing')])\n" if raw.get('toolchain') else "")
+                                      # a search below a directory that does not exist when the project is configured
+                                      + ("for f in find_files('later/deep/*.txt'):\n    copy_file(f)\n" if raw.get('later_dir') else ""))
             if raw.get('toolchain'):
                 _write(src + '/tc.bfg', "environ['SAID'] = 'one'\n")
             _write(src + '/options.bfg', "argument('name', default='x')\nsubmodule('sub')\n")
